@@ -2,7 +2,7 @@
 # usage: seedcheck.sh <dir with patch.diff> <check ids...> — applies an already confirmed change to the
 # scratch worktree /tmp/mrepo and runs only the named checks against it.
 D="$1"; shift
-W=/tmp/mrepo
+W=${SEED_W:-/tmp/mrepo}
 git -C /repo worktree list | grep -q "$W" || git -C /repo worktree add --detach $W HEAD -f >/dev/null
 git -C $W checkout -q --detach $(git -C /repo rev-parse HEAD); git -C $W checkout -q -- .; git -C $W clean -fdq
 git -C $W apply "$D/patch.diff" || { echo "PATCH-DOES-NOT-APPLY"; exit 3; }
